@@ -499,6 +499,11 @@ class EbuildProcessor:
                 raise RuntimeError(ie)
             raise
 
+    def write_sized(self, command, data):
+        """Send a command followed by a payload the bash side reads by byte count."""
+        size = len(data.encode(self.ebd_write.encoding, self.ebd_write.errors))
+        self.write(f"{command} {size}\n{data}", append_newline=False)
+
     def _consume_async_expects(self):
         if any(x[0] for x in self._outstanding_expects):
             self.ebd_write.flush()
@@ -812,9 +817,7 @@ class EbuildProcessor:
                 file.write(data)
             self.write(f"start_receiving_env file {path}")
         else:
-            self.write(
-                f"start_receiving_env bytes {len(data)}\n{data}", append_newline=False
-            )
+            self.write_sized("start_receiving_env bytes", data)
         os.umask(old_umask)
         return self.expect("env_received", async_req=async_req, flush=True)
 
@@ -846,7 +849,7 @@ class EbuildProcessor:
         # filter here, so that a screwy default doesn't result in resetting it
         # every time.
         data = os.pathsep.join(filter(None, paths))
-        self.write(f"set_metadata_path {len(data)}\n{data}", append_newline=False)
+        self.write_sized("set_metadata_path", data)
         if self.expect("metadata_path_received", flush=True):
             self._metadata_paths = paths
 
@@ -861,7 +864,7 @@ class EbuildProcessor:
 
         env = expected_ebuild_env(package_inst, env, depends=True)
         data = self._generate_env_str(env)
-        self.write(f"{command} {len(data)}\n{data}", append_newline=False)
+        self.write_sized(command, data)
 
         updates = None
         if self._eclass_caching:
